@@ -123,9 +123,10 @@ def upsert (n : TmpName) (b : Bytes) : List (TmpName × Bytes) → List (TmpName
 def fresh (orig : Testcase) (diskOrig : Bytes) : W :=
   { disk := diskOrig, testcase := orig, best := orig }
 
-/-- entering `run()`: the init hook runs; a new `ReductionIterator` will start from `Lithium.testcase` -/
+/-- entering `run()`: `last_interesting` is reset, the init hook runs; a new `ReductionIterator` will start from `Lithium.testcase` -/
 def beginRun (w0 : W) : W :=
   { w0 with best := w0.testcase, tried := [], anySuccess := false, exit := .running,
+            lastInteresting := none,      -- `run()` starts by forgetting what an earlier run ended with (fix for the stale restore)
             trace := w0.trace ++ [Hook.init] }
 
 /-- `testcase.dump(temp_filename("original", False))` -/
